@@ -33,6 +33,20 @@ pub fn check_xor(ctx: &mut Ctx, a: &RefAddr, tid: &[u8; 12], through_message: bo
         t2b[11] ^= 0x01;
         t2b[0] ^= 0x80;
         let other = XorMappedAddress::from_raw(&raw).map(|d| d.addr(imp::tid_from_bytes(&t2b))).ok();
+        // written in place into reused (non-zero) buffers, directly and through a message builder
+        let mut inplace: Vec<Vec<u8>> = vec![];
+        for fill in [0xA5u8, 0xFF] {
+            let mut dest = vec![fill; 4 + wire.len() + 4];
+            let n = stun_types::attribute::AttributeWriteExt::write_into(&x, &mut dest).unwrap_or(0);
+            inplace.push(if dest[n.min(dest.len())..].iter().all(|b| *b == fill) { dest[..n].to_vec() } else { vec![] });
+            if through_message {
+                let mut b = Message::builder(MessageType::from_class_method(MessageClass::Success, 1), t);
+                b.add_attribute(&x).ok();
+                let mut dest = vec![fill; 20 + 4 + wire.len() + 4];
+                let n = b.write_into(&mut dest).unwrap_or(0);
+                inplace.push(if n >= 20 { dest[20..n].to_vec() } else { vec![] });
+            }
+        }
         // the same attribute object asked repeatedly, under alternating transaction ids, and its clone:
         // every answer is a function of (wire value, id given to that call) only
         let t2 = imp::tid_from_bytes(&t2b);
@@ -56,11 +70,11 @@ pub fn check_xor(ctx: &mut Ctx, a: &RefAddr, tid: &[u8; 12], through_message: bo
         } else {
             Some(std_addr)
         };
-        (back, wire, ty, dec, dec2, other, msg_trip, x.length(), repeated, t2b)
+        (back, wire, ty, dec, dec2, other, msg_trip, x.length(), repeated, t2b, inplace)
     });
     match r {
         Err(p) => ctx.violation("C13", "no-panic", "XorMappedAddress", "", w, "value".into(), format!("panic: {} at {}", p.msg, p.loc)),
-        Ok((back, wire, ty, dec, dec2, other, msg_trip, len, repeated, t2b)) => {
+        Ok((back, wire, ty, dec, dec2, other, msg_trip, len, repeated, t2b, inplace)) => {
             let fam = if a.v6 { "ipv6" } else { "ipv4" };
             ctx.count(fam);
             if back != std_addr {
@@ -69,6 +83,15 @@ pub fn check_xor(ctx: &mut Ctx, a: &RefAddr, tid: &[u8; 12], through_message: bo
             let want = ref_encode(Kind::XorMappedAddress, &RefVal::Addr(a.clone()), tid).unwrap();
             if wire != want || ty != 0x0020 || len as usize != want.len() {
                 ctx.violation("C13", "wire-encoding", "XorMappedAddress::to_raw", fam, w, hex(&want), format!("type {ty:#06x} len {len} value {}", hex(&wire)));
+            }
+            // TLV as written in place: type 0x0020, length, the reference value (no padding: 8 / 20 bytes)
+            let mut tlv = vec![0x00, 0x20, 0x00, want.len() as u8];
+            tlv.extend_from_slice(&want);
+            for (i, got) in inplace.iter().enumerate() {
+                if *got != tlv {
+                    ctx.violation("C13", "wire-encoding", "XorMappedAddress::write_into", &format!("{fam},reused-buffer"), w, hex(&tlv), format!("path #{i}: {}", hex(got)));
+                    break;
+                }
             }
             if dec.as_ref() != Ok(&std_addr) || dec2.as_ref() != Ok(&std_addr) {
                 ctx.violation("C13", "decode-wire", "XorMappedAddress::from_raw", fam, w, format!("{std_addr}"), format!("own wire {dec:?}, reference wire {dec2:?}"));
